@@ -1,7 +1,7 @@
 """Driver configuration for C11 (proposal metadata store and proposal queue)."""
 
 CFG = dict(
-    tests=["TestC11"],
+    tests=["TestC11", "TestC11QueueRace"],
     n_quick=250, n_thorough=900, shards_thorough=5,
     rule="corpus + 15 metadata boundary families (expired key sorted before / between / after live ones, two expired first, "
          "alternating, all expired, expiry exact and +1 ns, unsorted inserts, re-add refreshing the time, hook removing surfaced "
